@@ -19,14 +19,67 @@ type c03wo struct {
 	lit     *ast.FuncLit
 	wh      []*ast.CallExpr // WriteHeader calls on w
 	copies  []*ast.CallExpr // io.Copy(w, …) calls
+	sc      *c03scope       // serveHTTP and the same-package functions it calls
+	litSc   *c03scope       // the deferred literal and the functions it calls
 }
 
 func c03resolveWriteOut(c *core.Ctx, report bool) *c03wo {
-	f := fn(c, hs, "muxInstance", "serveHTTP")
-	if f == nil {
+	// by role: the function with an http.ResponseWriter parameter that defers a function
+	// literal from which WriteHeader is reached (the current name only breaks ties)
+	cands := funcsByRole(c, hs, func(g *flow.Func, fd *ast.FuncDecl) bool {
+		hasW := false
+		for _, fl := range fd.Type.Params.List {
+			for _, id := range fl.Names {
+				if o := g.Info.Defs[id]; o != nil && o.Type().String() == "net/http.ResponseWriter" {
+					hasW = true
+				}
+			}
+		}
+		if !hasW {
+			return false
+		}
+		found := false
+		for _, st := range fd.Body.List {
+			ds, ok := st.(*ast.DeferStmt)
+			if !ok {
+				continue
+			}
+			lit, ok := ast.Unparen(ds.Call.Fun).(*ast.FuncLit)
+			if !ok {
+				continue
+			}
+			for _, h := range reach(g.Lit(lit), 3) {
+				for _, call := range calls(h.Body, false) {
+					if sel, ok := ast.Unparen(call.Fun).(*ast.SelectorExpr); ok && sel.Sel.Name == "WriteHeader" {
+						found = true
+					}
+				}
+			}
+		}
+		return found
+	})
+	var f *flow.Func
+	for _, g := range cands {
+		if f == nil || c03fnName(g) == fname(hs, "muxInstance", "serveHTTP") {
+			f = g
+		}
+	}
+	if len(cands) > 1 && c03fnName(f) != fname(hs, "muxInstance", "serveHTTP") {
+		if report {
+			c.Errorf("R-C03-7: anchor: %d functions of %s defer a write-out on an http.ResponseWriter; cannot tell which one serves requests", len(cands), hs)
+		}
 		return nil
 	}
-	wo := &c03wo{f: f, name: fname(hs, "muxInstance", "serveHTTP")}
+	if f == nil {
+		// no deferred write-out at all: fall back to the name so that the rule can say so
+		f = fn(c, hs, "muxInstance", "serveHTTP")
+		if f == nil {
+			return nil
+		}
+	} else {
+		c.Count("functions_analysed", 1)
+	}
+	wo := &c03wo{f: f, name: c03fnName(f)}
 	fd := f.Node.(*ast.FuncDecl)
 	for _, fl := range fd.Type.Params.List {
 		for _, id := range fl.Names {
@@ -41,33 +94,49 @@ func c03resolveWriteOut(c *core.Ctx, report bool) *c03wo {
 		}
 		return nil
 	}
-	isW := func(e ast.Expr) bool {
-		id, ok := ast.Unparen(e).(*ast.Ident)
-		return ok && c03canon(f, c03obj(f, id)) == wo.w
-	}
-	ast.Inspect(f.Body, func(n ast.Node) bool {
-		ds, ok := n.(*ast.DeferStmt)
-		if !ok {
-			return true
+	// the write-out may live in helpers called from serveHTTP (or from its deferred literal):
+	// the writer is recognised through the parameter bindings of the scope
+	wo.sc = newC03scope(f, 3)
+	c03with(wo.sc, func() {
+		isW := func(e ast.Expr) bool {
+			id, ok := ast.Unparen(e).(*ast.Ident)
+			return ok && c03canon(f, c03obj(f, id)) == wo.w
 		}
-		lit, ok := ast.Unparen(ds.Call.Fun).(*ast.FuncLit)
-		if !ok {
-			return true
+		isWH := func(call *ast.CallExpr) bool {
+			sel, ok := ast.Unparen(call.Fun).(*ast.SelectorExpr)
+			return ok && sel.Sel.Name == "WriteHeader" && isW(sel.X) && len(call.Args) == 1
 		}
-		for _, call := range calls(lit.Body, false) {
-			if sel, ok := ast.Unparen(call.Fun).(*ast.SelectorExpr); ok && sel.Sel.Name == "WriteHeader" && isW(sel.X) {
-				wo.deferSt, wo.lit = ds, lit
+		ast.Inspect(f.Body, func(n ast.Node) bool {
+			ds, ok := n.(*ast.DeferStmt)
+			if !ok {
+				return true
+			}
+			lit, ok := ast.Unparen(ds.Call.Fun).(*ast.FuncLit)
+			if !ok {
+				return true
+			}
+			for _, g := range reach(f.Lit(lit), 3) {
+				for _, call := range calls(g.Body, false) {
+					if isWH(call) {
+						wo.deferSt, wo.lit = ds, lit
+					}
+				}
+			}
+			return true
+		})
+		for _, g := range wo.sc.fns {
+			for _, call := range calls(g.Body, true) {
+				if isWH(call) {
+					wo.wh = append(wo.wh, call)
+				}
+				if calleeIs(f, call, "io.Copy", "io.CopyBuffer") && len(call.Args) >= 2 && isW(call.Args[0]) {
+					wo.copies = append(wo.copies, call)
+				}
 			}
 		}
-		return true
 	})
-	for _, call := range calls(f.Body, true) {
-		if sel, ok := ast.Unparen(call.Fun).(*ast.SelectorExpr); ok && sel.Sel.Name == "WriteHeader" && isW(sel.X) {
-			wo.wh = append(wo.wh, call)
-		}
-		if calleeIs(f, call, "io.Copy", "io.CopyBuffer") && len(call.Args) >= 2 && isW(call.Args[0]) {
-			wo.copies = append(wo.copies, call)
-		}
+	if wo.lit != nil {
+		wo.litSc = newC03scope(f.Lit(wo.lit), 3)
 	}
 	return wo
 }
@@ -82,6 +151,7 @@ func c03WriteOutNormalises(c *core.Ctx) bool {
 	f := wo.f.Lit(wo.lit)
 	res := analyze(c, f, flow.Config{
 		NoHavoc: true,
+		Inline:  wo.litSc.inline(),
 		Track:   func(string) bool { return false },
 		OnCall: func(st *flow.State, call *ast.CallExpr, callee types.Object, deferred bool) {
 			if _, ok := c03clOp(f, call); ok {
@@ -110,6 +180,10 @@ func c03WriteOut(c *core.Ctx) {
 	if wo == nil {
 		return
 	}
+	c03with(wo.sc, func() { c03WriteOutIn(c, wo) })
+}
+
+func c03WriteOutIn(c *core.Ctx, wo *c03wo) {
 	f, name := wo.f, wo.name
 	if !c.RequireCount("R-C03-7", "WriteHeader calls on the ResponseWriter in serveHTTP", len(wo.wh), 1) {
 		return
@@ -134,9 +208,10 @@ func c03WriteOut(c *core.Ctx) {
 		}
 		return c03rootOf(f, call.Fun)
 	}
-	// header copy loops: range over R.HTTPHeader()/R.Std().Header storing into w.Header()
+	// header copy loops: a loop over every key of R.HTTPHeader()/R.Std().Header storing into
+	// w.Header() — in the deferred literal or in a helper it calls
 	type copyLoop struct {
-		rs   *ast.RangeStmt
+		rs   ast.Stmt
 		resp types.Object
 		ch   *c03chain
 		st   ast.Node // the storing statement/call
@@ -144,14 +219,7 @@ func c03WriteOut(c *core.Ctx) {
 	var loops []*copyLoop
 	isWHeader := func(e ast.Expr) bool {
 		// e denotes w.Header() (directly or through a local)
-		e = ast.Unparen(e)
-		if id, ok := e.(*ast.Ident); ok {
-			defs := c03defs(f, c03obj(f, id))
-			if len(defs) != 1 || defs[0].rhs == nil {
-				return false
-			}
-			e = defs[0].rhs
-		}
+		e, _ = c03resolveLocal(f, e)
 		call, ok := e.(*ast.CallExpr)
 		if !ok {
 			return false
@@ -163,61 +231,69 @@ func c03WriteOut(c *core.Ctx) {
 		id, ok := ast.Unparen(sel.X).(*ast.Ident)
 		return ok && c03canon(f, c03obj(f, id)) == wo.w
 	}
-	ast.Inspect(wo.lit.Body, func(n ast.Node) bool {
-		rs, ok := n.(*ast.RangeStmt)
-		if !ok || rs.Key == nil {
-			return true
-		}
-		tv, ok := f.Info.Types[rs.X]
-		if !ok || !c03isHeaderType(tv.Type) {
-			return true
-		}
-		r := c03rootOf(f, rs.X)
-		if r == nil || r == wo.w {
-			return true
-		}
-		kid, ok := rs.Key.(*ast.Ident)
-		if !ok {
-			return true
-		}
-		vals := map[types.Object]bool{}
-		if vid, ok := rs.Value.(*ast.Ident); ok {
-			vals[c03obj(f, vid)] = true
-		}
-		// values derived by ranging over the value slice
-		ast.Inspect(rs.Body, func(m ast.Node) bool {
-			if in, ok := m.(*ast.RangeStmt); ok && c03mentions(f, in.X, vals) {
-				if id, ok := in.Value.(*ast.Ident); ok {
-					vals[c03obj(f, id)] = true
-				}
+	for _, g := range wo.litSc.fns {
+		for _, lp := range c03loops(f, g.Body) {
+			if lp.key == nil {
+				continue
 			}
-			return true
-		})
-		keyIs := func(e ast.Expr) bool {
-			id, ok := ast.Unparen(e).(*ast.Ident)
-			return ok && c03obj(f, id) == c03obj(f, kid)
-		}
-		var store ast.Node
-		ast.Inspect(rs.Body, func(m ast.Node) bool {
-			switch x := m.(type) {
-			case *ast.AssignStmt:
-				for i, l := range x.Lhs {
-					if ix, ok := ast.Unparen(l).(*ast.IndexExpr); ok && isWHeader(ix.X) && keyIs(ix.Index) && len(x.Lhs) == len(x.Rhs) && c03mentions(f, x.Rhs[i], vals) {
+			tv, ok := f.Info.Types[lp.coll]
+			if !ok || !c03isHeaderType(tv.Type) {
+				continue
+			}
+			r := c03rootOf(f, lp.coll)
+			if r == nil || r == wo.w {
+				continue
+			}
+			vals := map[types.Object]bool{}
+			if lp.val != nil {
+				vals[lp.val] = true
+			}
+			// values derived by looping over the value slice
+			for changed := true; changed; {
+				changed = false
+				for _, in := range c03loops(f, lp.body) {
+					if in.stmt != lp.stmt && lp.mentionsElem(f, in.coll, vals) {
+						for _, o := range []types.Object{in.val, in.key} {
+							if o != nil && !vals[o] {
+								vals[o] = true
+								changed = true
+							}
+						}
+					}
+				}
+				ast.Inspect(lp.body, func(m ast.Node) bool {
+					if as, ok := m.(*ast.AssignStmt); ok && len(as.Lhs) == len(as.Rhs) {
+						for i, l := range as.Lhs {
+							if id, ok := ast.Unparen(l).(*ast.Ident); ok && id.Name != "_" && lp.mentionsElem(f, as.Rhs[i], vals) && !vals[c03obj(f, id)] {
+								vals[c03obj(f, id)] = true
+								changed = true
+							}
+						}
+					}
+					return true
+				})
+			}
+			var store ast.Node
+			ast.Inspect(lp.body, func(m ast.Node) bool {
+				switch x := m.(type) {
+				case *ast.AssignStmt:
+					for i, l := range x.Lhs {
+						if ix, ok := ast.Unparen(l).(*ast.IndexExpr); ok && isWHeader(ix.X) && lp.isKey(f, ix.Index) && len(x.Lhs) == len(x.Rhs) && lp.mentionsElem(f, x.Rhs[i], vals) {
+							store = x
+						}
+					}
+				case *ast.CallExpr:
+					if op, recv := c03hdrOp(f, x); (op == "Set" || op == "Add") && len(x.Args) == 2 && isWHeader(recv) && lp.isKey(f, x.Args[0]) && lp.mentionsElem(f, x.Args[1], vals) {
 						store = x
 					}
 				}
-			case *ast.CallExpr:
-				if op, recv := c03hdrOp(f, x); (op == "Set" || op == "Add") && len(x.Args) == 2 && isWHeader(recv) && keyIs(x.Args[0]) && c03mentions(f, x.Args[1], vals) {
-					store = x
-				}
+				return true
+			})
+			if store != nil {
+				loops = append(loops, &copyLoop{rs: lp.stmt, resp: r, st: store, ch: newC03chain(f, lp.stmt, store, nil)})
 			}
-			return true
-		})
-		if store != nil {
-			loops = append(loops, &copyLoop{rs: rs, resp: r, st: store, ch: newC03chain(f, rs, store, nil)})
 		}
-		return true
-	})
+	}
 
 	const (
 		evDefer = "ev:wo:deferred"
@@ -239,6 +315,7 @@ func c03WriteOut(c *core.Ctx) {
 	var badOrderWH, badOrderCopy, badTwice *flow.State
 	res := analyze(c, f, flow.Config{
 		NoHavoc: true,
+		Inline:  wo.litSc.inline(), // the helpers of the deferred write-out are interpreted in place
 		Track:   func(string) bool { return false },
 		OnNode: func(st *flow.State, n ast.Node) {
 			if n == ast.Node(wo.deferSt) {
@@ -253,7 +330,7 @@ func c03WriteOut(c *core.Ctx) {
 		OnBlock: func(st *flow.State, b *cfg.Block) {
 			for _, l := range loops {
 				l.ch.block(st, b)
-				if b.Stmt == l.rs && b.Kind == cfg.KindRangeLoop {
+				if c03atHead(b, l.rs) {
 					if st.Is(evAnyWH, flow.True) && !st.Is(evHdr+c03varID(f, l.resp), flow.True) && badOrderWH == nil {
 						badOrderWH = st
 					}
@@ -317,7 +394,7 @@ func c03WriteOut(c *core.Ctx) {
 			badExit = st
 		}
 	}
-	c.RequireCount("R-C03-7", "exits of serveHTTP", nExit, 2)
+	c.RequireCount("R-C03-7", "exits of serveHTTP", nExit, 1)
 	c.Check(badDefer == nil, "R-C03-7", name+"|write-out registered before any exit", pos(c, wo.deferSt),
 		sprintf("all %d exits leave after the write-out was deferred", nExit),
 		"serveHTTP can return before the write-out is deferred: that request gets no status line, header or body from the pipeline's response", witness(badDefer)...)
